@@ -332,7 +332,7 @@ pub fn build_world(seed: u64, idx: u64, out: &mut RunOut) -> World {
   }
   let dcfg = DocCfg::swarm(&mut rk);
   let enc = EncCfg::swarm(&mut rk);
-  let source = rk.weighted(&[4, 8, 3, 2, 1, 1, 1, 1]);
+  let source = rk.weighted(&[4, 8, 3, 2, 1, 1, 1, 1, 2]);
   match source {
     0 => {
       // valid data at rest: corpus
@@ -400,6 +400,18 @@ pub fn build_world(seed: u64, idx: u64, out: &mut RunOut) -> World {
       w.csv = Some(to_csv(&gen_csv_doc(&mut rw, &dcfg), &mut rw).into_bytes());
       w.origin = "grammar".into();
       out.probe("src_grammar");
+    }
+    8 => {
+      // every control operator with plausible and awkward controllers against non-ASCII / boundary values
+      let (schema, doc) = control_matrix_case(&mut rw);
+      w.schema = schema.into_bytes();
+      w.json = Some(to_json(&doc).into_bytes());
+      let mut b = Vec::new();
+      to_cbor(&doc, &mut b, &enc, &mut rw);
+      w.cbor = Some(b);
+      w.csv = Some(format!("{}\n", to_json(&doc)).into_bytes());
+      w.origin = "control-matrix".into();
+      out.probe("src_control_matrix");
     }
     7 => {
       // numeric edges: ranges, comparison controls, bignum / decimal-fraction tags, special floats
